@@ -1,2 +1,3 @@
 pub mod driver;
+pub mod model;
 pub mod ops;
